@@ -45,6 +45,8 @@ def main():
         desc = "clean copy" if j[2] is None else j[2].get("desc", "")
         ok = (rc == 0) if j[2] is None else (rc == j[2].get('expect', 1))
         print(f"{'OK  ' if ok else 'MISS'} {prop_} #{idx} rc={rc} {desc} :: {info[:300]}")
+    # restore lean/Djc/Generated.lean to what /repo says
+    subprocess.run(["/venv/bin/python", "-m", "harness.extract"], cwd=str(VERIF), capture_output=True)
 
 
 if __name__ == "__main__":
